@@ -1,5 +1,5 @@
 PROP = {
-    "regen_files": ["GenDeleg.v", "GenPipe.v"],
+    "regen_files": ["GenDeleg.v", "GenPipe.v", "GenSigs.v"],
     "num": 8,
     "runs": [{"tag": "c08", "bin": "c08"}],
     "mismatch_is_failing": True,
